@@ -14,7 +14,10 @@ Record step := {
   s_cache : option nat;              (* which cache directory, None = no cache *)
   s_drop_tar : bool;                 (* every *.dat.tar of that directory is removed before the step *)
   s_lazy : bool;                     (* tarfs (lazy install) or a plain in-memory fs (streaming install) *)
+  s_http : bool;                     (* the URL is http:// (through the cache transport when a cache is configured) or a local path *)
+  s_offline : bool;                  (* the cache is configured offline *)
   s_handle : handle;
+  s_whole : option stream;           (* the file under the URL-derived name in the cache directory (pre-populated), if any *)
   s_served : option stream;          (* what the origin has under the URL now *)
   o_out : option (string * list (string * list N))   (* observed: pkgdesc recorded, files readable afterwards *)
 }.
@@ -24,7 +27,7 @@ Record seq_case := {
   q_sha256 : list (list N * list N); (* SHA-256 of the byte strings that can be taken as data section *)
   q_b64 : list (string * option (list N));   (* base64.StdEncoding.DecodeString on the checksum strings in play *)
   q_first : list (list N * option string);                   (* first tar header name of a member *)
-  q_ctl : list (list N * option (string * list string));     (* a member read as control section *)
+  q_ctl : list (list N * option (string * string));          (* a member read as control section: pkgdesc, text of .PKGINFO *)
   q_gunzip : list (list N * option (list N));                (* data bytes -> tar *)
   q_untar : list (list N * option (list dfile));             (* tar -> entries *)
   q_steps : list step
@@ -34,6 +37,11 @@ Record seq_case := {
 Definition hexval (c : ascii) : N := let n := N_of_ascii c in if (n <? 58)%N then (n - 48)%N else (n - 87)%N.
 Fixpoint hx (s : string) : list N :=
   match s with String a (String b r) => (16 * hexval a + hexval b)%N :: hx r | _ => [] end.
+
+(* .PKGINFO texts are printed as literal pieces and runs of one byte *)
+Inductive seg := L (s : string) | R (n : N) (c : ascii).
+Definition txt (ss : list seg) : string :=
+  List.fold_right (fun sg acc => match sg with L s => (s ++ acc)%string | R n c => N.iter n (String c) acc end) EmptyString ss.
 
 Definition table (t : list (list N * list N)) (x : list N) : list N :=
   match assoc_b x t with Some d => d | None => [] end.
@@ -63,10 +71,14 @@ Section Run.
   Let untar := otable (q_untar c).
 
   (* what was installed, identified among everything in play: every (control member,
-     data bytes) pair whose recorded description and installable files are the
-     observed ones. Several data sections can install the same bytes (they differ
-     in recorded checksums only); the installed BYTES are authenticated when one
-     such explanation satisfies the chain. *)
+     data bytes) pair whose recorded description is the observed one and whose
+     entries have every observed file's NAME. Several data sections can hold the
+     same names and bytes (they differ in recorded checksums only); the
+     installed BYTES are authenticated when one such explanation satisfies the chain
+     and every observed file's bytes are the body of a regular entry of it that
+     agrees with its recorded checksum ("what is installed was hashed"). *)
+  Definition accounts (fs : list dfile) (o : list (string * list N)) : bool :=
+    forallb (fun p => existsb (fun f => String.eqb (f_name f) (fst p)) fs) o.
   Definition explanations (o : string * list (string * list N)) : list exp :=
     List.flat_map (fun craw =>
       match mk_ctl ctl_view craw with
@@ -75,25 +87,24 @@ Section Run.
             List.flat_map (fun gz =>
               match dat_view gunzip untar gz with
               | Some fs =>
-                  match install_files false [] (data_section fs) with
-                  | Some files =>
-                      if files_eqb files (snd o)
-                      then [{| x_ctl := ctl; x_ctl_file := craw; x_dat := {| d_raw := gz; d_files := fs |}; x_ctl_hash := [] |}]
-                      else []
-                  | None => []
-                  end
+                  if accounts fs (snd o)
+                  then [{| x_ctl := ctl; x_ctl_file := craw; x_dat := {| d_raw := gz; d_files := fs |}; x_ctl_hash := [] |}]
+                  else []
               | None => []
               end) (List.map fst (q_gunzip c))
           else []
       | None => []
       end) (List.map fst (q_ctl c)).
 
+  Definition tags_of (sfx : string) (h : handle) (o : string * list (string * list N)) (x : exp) : list string :=
+    chain_tags sha1 sha256 b64 ctl_view gunzip untar sfx h x ++
+    tag_if (negb (installed_hashed_b sha1 x (snd o))) ("viol:installed-bytes-never-hashed" ++ sfx).
   Definition judge (sfx : string) (h : handle) (o : string * list (string * list N)) : list string :=
     match explanations o with
     | [] => ["viol:installed-content-from-nowhere"]
     | x :: more =>
-        if existsb (fun y => match chain_tags sha1 sha256 b64 ctl_view gunzip untar sfx h y with [] => true | _ => false end) (x :: more)
-        then [] else chain_tags sha1 sha256 b64 ctl_view gunzip untar sfx h x
+        if existsb (fun y => match tags_of sfx h o y with [] => true | _ => false end) (x :: more)
+        then [] else tags_of sfx h o x
     end.
 
   (* model state: memo, caches; spec-side bookkeeping: the (URL, checksum string)
@@ -105,9 +116,14 @@ Section Run.
      process, a different request with the same joined memo key, or the same URL
      with another checksum (what fixes d69e0fd / 9459281 closed) *)
   Definition any_sig2 : bool :=
-    existsb (fun s => match s_served s with Some st => sig2 first_name st | None => false end) (q_steps c).
+    existsb (fun s => match s_served s with Some st => sig2 first_name st | None => false end ||
+                      match s_whole s with Some st => sig2 first_name st | None => false end) (q_steps c).
+  (* a data section with a sparse entry is in play (fixed finding C05-F4) *)
+  Definition any_sparse : bool :=
+    existsb (fun r => match snd r with Some fs => existsb f_sparse fs | None => false end) (q_untar c).
   Definition mechanism (seen : list handle) (h : handle) : string :=
     if any_sig2 then "/sign-first-two-members"
+    else if any_sparse then "/sparse-entry-lazy"
     else if existsb (fun p => String.eqb (h_url p ++ "@" ++ h_chk p) (h_url h ++ "@" ++ h_chk h) && negb (same_req p h)) seen
     then "/memo-key-ambiguous"
     else if existsb (fun p => String.eqb (h_url p) (h_url h) && negb (same_req p h)) seen
@@ -123,7 +139,8 @@ Section Run.
                              Some (if s_drop_tar s then {| k_ctl := k_ctl kc; k_gz := k_gz kc; k_tar := [] |} else kc)
                  | None => None
                  end in
-        let '(r, k', m1) := expand_package sha1 sha256 b64 first_name ctl_view gunzip untar m0 k (s_handle s) (s_served s) in
+        let served := fetch (s_http s) (match k with Some _ => true | None => false end) (s_offline s) (s_whole s) (s_served s) in
+        let '(r, k', m1) := expand_package sha1 sha256 b64 first_name ctl_view gunzip untar m0 k (s_handle s) served in
         let cs' := match s_cache s, k' with Some j, Some kc => (j, kc) :: cs | _, _ => cs end in
         let predicted :=
           match r with
